@@ -29,6 +29,9 @@ type Obligation struct {
 	ExpectFail bool
 	// Info marks informational probes that never fail a check.
 	Info bool
+	// KnownFinding marks obligations listed as open findings: they are expected not to discharge, so they get a short
+	// time limit and no retry.
+	KnownFinding bool
 }
 
 // Engine holds the loaded program and all contracts.
